@@ -23,7 +23,7 @@ ASSUMPTIONS = [
     "document to the real FlowHandler.put (RequestHandler.json's Content-Type/JSON errors happen before any edit)",
     "the auth wrapper around put is bypassed (C46 covers it); put is the innermost wrapped function, checked by qualname",
     "flow state is observed through Flow.get_state() with the 'backup' slot removed",
-    "a JSON object has unique keys: picks with the same (section, key) are pruned; picks of one section are contiguous",
+    "a JSON object has unique keys: a (section, key) is picked at most once; picks of one section are contiguous",
 ]
 OUTSIDE = [
     "values mitmproxy accepts although the property calls them invalid (port -1 / 70000, host containing a space) are only "
@@ -48,8 +48,12 @@ HDR_KINDS = [
 CONTENT_KINDS = [("valid", "new body"), ("non-str", 5)]
 
 
+def _flatten(*secs):
+    return [(sec, k, kind, v) for sec, d in secs for k, kinds in d.items() for kind, v in kinds]
+
+
 def _menu(tier):
-    m = []
+    """thorough = quick + appended entries, so that a quick counterexample replays under either tier"""
     req = {
         "method": [("valid", "PATCH")],
         "host": [("valid", "example.org"), ("space", "bad host")],
@@ -70,20 +74,29 @@ def _menu(tier):
         "marked": [("valid", ":red_circle:")],
         "foo": [("unknown-key", 42)],
     }
+    m = _flatten(("request", req), ("response", resp), ("", top))
     if tier != "quick":
-        req["trailers"] = HDR_KINDS[:2]
-        req["scheme"] = [("valid", "https")]
-        req["path"] = [("valid", "/other")]
-        req["http_version"] = [("valid", "HTTP/2.0")]
-        resp["trailers"] = HDR_KINDS[:2]
-        resp["http_version"] = [("valid", "HTTP/1.0")]
-        resp["code"] = resp["code"] + [("none", None)]
-        top["request"] = [("non-dict", 5)]
-    for sec, d in (("request", req), ("response", resp), ("", top)):
-        for k, kinds in d.items():
-            for kind, v in kinds:
-                m.append((sec, k, kind, v))
+        m += _flatten(
+            ("request", {"trailers": HDR_KINDS[:2], "scheme": [("valid", "https")], "path": [("valid", "/other")],
+                         "http_version": [("valid", "HTTP/2.0")], "port": [("numeric-str", "8080"), ("none", None)]}),
+            ("response", {"trailers": HDR_KINDS[:2], "http_version": [("valid", "HTTP/1.0")], "code": [("none", None), ("numeric-str", "302")]}),
+            ("", {"request": [("non-dict", 5)], "response": [("non-dict", "x")]}),
+        )
     return m
+
+
+def _menu_small():
+    return _flatten(
+        ("request", {"method": [("valid", "PATCH")], "port": [("valid", 123), ("x", "x")], "headers": HDR_KINDS[:2],
+                     "content": CONTENT_KINDS[:1], "foo": [("unknown-key", 1)]}),
+        ("response", {"code": [("valid", 404), ("abc", "abc")], "reason": [("valid", "Nope")], "headers": HDR_KINDS[2:3],
+                      "content": CONTENT_KINDS[1:]}),
+        ("", {"comment": [("valid", "edited")], "foo": [("unknown-key", 42)]}),
+    )
+
+
+FLOWS = [("http+response", False), ("http+response", True), ("http-no-response", False), ("tcp", False),
+         ("http-no-response", True), ("tcp", True)]
 
 
 def _strip(state):
@@ -92,20 +105,26 @@ def _strip(state):
     return state
 
 
-def _applied(flow, sec, k, v):
-    """is the (valid or accepted) field visibly applied?  Only the field itself is inspected."""
+def _applied(flow, sec, k, v, later_keys=()):
+    """is the (valid or accepted) field visibly applied?  Only the field itself is inspected.
+    `later_keys`: keys of the same section edited after this one (content / host edits legitimately touch headers)."""
     if sec == "":
         return getattr(flow, k) == v
     msg = getattr(flow, sec)
     if k in ("method", "host", "scheme", "path", "http_version", "reason"):
         return getattr(msg, k) == v
     if k == "port":
-        return msg.port == v
+        return msg.port == int(v)
     if k == "code":
-        return msg.status_code == v
+        return msg.status_code == int(v)
     if k in ("headers", "trailers"):
         h = getattr(msg, k)
-        return h is not None and all(h.get_all(a)[-1:] == [b] for a, b in v)
+        if h is None or not all(h.get_all(a)[-1:] == [b] for a, b in v):
+            return False
+        if k == "headers" and not ({"content", "host"} & set(later_keys)):
+            # the document gives the complete header list: nothing else may survive
+            return [(a.decode(), b.decode()) for a, b in h.fields] == [tuple(x) for x in v]
+        return True
     if k == "content":
         return msg.text == v
     return False
@@ -134,11 +153,11 @@ def _handler_cls():
     return _H, _View, put, app.APIError
 
 
-def h_put(X, menu, K):
+def h_put(X, menu, K, flows):
     from mitmproxy.test import tflow
 
     H, View, put, APIError = _handler_cls()
-    kind = X.choose("flow", ["http+response", "http-no-response", "tcp"])
+    kind, edited = X.choose("flow", flows)
     if kind == "http+response":
         f = tflow.tflow(resp=True)
     elif kind == "http-no-response":
@@ -148,8 +167,9 @@ def h_put(X, menu, K):
     h = object.__new__(H)
     h._f, h._v = f, View()
 
+    original = _strip(f.get_state())
     # an earlier, successful edit through the same endpoint (leaves flow.modified() == True)
-    if X.boolean("edited-before"):
+    if edited:
         h._doc = {"comment": "first edit"}
         put(h, f.id)
         X.check(f.comment == "first edit", "C47/put/valid-edit-not-applied", "preparatory edit {'comment': ...} not applied")
@@ -157,11 +177,11 @@ def h_put(X, menu, K):
     n = 1 + X.choose("npicks-1", K)
     picks = []
     for i in range(n):
-        p = X.choose("pick", menu)
-        X.assume(all((q[0], q[1]) != (p[0], p[1]) for q in picks))
-        if picks and p[0] and p[0] != picks[-1][0]:
-            X.assume(all(q[0] != p[0] for q in picks))  # a section is one JSON object: contiguous
-        picks.append(p)
+        # a JSON object has unique keys and a section is one nested object (its keys are contiguous):
+        # the menu offered to the solver is narrowed accordingly, the order of everything else is free
+        closed = {q[0] for q in picks if q[0]} - ({picks[-1][0]} if picks else set())
+        allowed = [p for p in menu if p[0] not in closed and all((q[0], q[1]) != (p[0], p[1]) for q in picks)]
+        picks.append(X.choose("pick", allowed))
     doc = {}
     for sec, k, _, v in picks:
         if sec:
@@ -178,31 +198,42 @@ def h_put(X, menu, K):
     after = _strip(f.get_state())
     if err is not None:
         X.reach("rejected")
-        if isinstance(err, APIError):
-            X.reach("rejected-APIError")
-        else:
-            X.reach("rejected-other")
+        if any(vk == "unknown-key" for _, _, vk, _ in picks):
+            X.reach("rejected-unknown-key")
+        if any(vk not in ("valid", "unknown-key") for _, _, vk, _ in picks):
+            X.reach("rejected-malformed-value")
+        if edited:
+            X.reach("rejected-after-earlier-edit")
         if after != before:
             changed = sorted(k for k in after if after[k] != before.get(k))
-            if isinstance(err, APIError):
-                key, what = "C47/put/error-reverts-earlier-edit", "rejected edit (APIError) also threw away the earlier, accepted edit"
+            if edited and after == original:
+                key, what = "C47/put/error-reverts-earlier-edit", f"rejected edit ({type(err).__name__}) also threw away the earlier, accepted edit"
             else:
                 key, what = f"C47/put/not-reverted/{type(err).__name__}", "rejected edit left the flow half-applied"
             X.fail(key, f"{what}: flow={kind} doc={doc!r} -> {type(err).__name__}: {err}; changed state keys {changed}")
     else:
         X.reach("applied")
-        for sec, k, vk, v in picks:
-            X.check(_applied(f, sec, k, v), f"C47/put/accepted-but-not-applied/{sec or 'flow'}.{k}/{vk}",
+        for n_, (sec, k, vk, v) in enumerate(picks):
+            later = [q[1] for q in picks[n_ + 1:] if q[0] == sec]
+            X.check(_applied(f, sec, k, v, later), f"C47/put/accepted-but-not-applied/{sec or 'flow'}.{k}/{vk}",
                     f"put succeeded but {sec or 'flow'}.{k}={v!r} is not applied: flow={kind} doc={doc!r}")
 
 
 def obligations(tier):
-    k = 3 if tier == "quick" else 4
     menu = _menu(tier)
-    return [
-        Symx("put-atomic", lambda X: h_put(X, menu, k),
-             bounds=f"every edit document of 1..{k} (section, key, value-kind) picks in every order from a {len(menu)}-entry menu "
-                    f"(valid and invalid ports, codes, header lists, contents, hosts, unknown keys) x flow type "
-                    f"{{HTTP with response, HTTP without response, TCP}} x {{fresh flow, flow already edited once}}",
-             encoded=ENCODED, must_reach=["applied", "rejected-APIError", "rejected-other"], parallel_depth=4),
+    flows = FLOWS[:4] if tier == "quick" else FLOWS
+    fl = "{HTTP with response (fresh / already edited once), HTTP without response, TCP}" if tier == "quick" else \
+        "{HTTP with response, HTTP without response, TCP} x {fresh flow, flow already edited once}"
+    obs = [
+        Symx("put-atomic", lambda X: h_put(X, menu, 3, flows),
+             bounds=f"every edit document of 1..3 (section, key, value-kind) picks in every order from a {len(menu)}-entry menu "
+                    f"(valid and invalid ports, codes, header lists, contents, hosts, unknown keys) x flow {fl}",
+             encoded=ENCODED, must_reach=["applied", "rejected-unknown-key", "rejected-malformed-value", "rejected-after-earlier-edit"], parallel_depth=3),
     ]
+    if tier != "quick":
+        small = _menu_small()
+        obs.append(Symx("put-atomic-4picks", lambda X: h_put(X, small, 4, FLOWS),
+                        bounds=f"every edit document of 1..4 picks in every order from a {len(small)}-entry menu x flow "
+                               "{HTTP with response, HTTP without response, TCP} x {fresh, already edited once}",
+                        encoded=ENCODED, must_reach=["applied", "rejected-unknown-key", "rejected-malformed-value", "rejected-after-earlier-edit"], parallel_depth=3))
+    return obs
